@@ -14,6 +14,7 @@ open Model.Diff
 inductive Kind
   | addTable | removeTable | addColumn | removeColumn | modifyType | modifyNullable | modifyDefault
   | addIndex | removeIndex | addUq | removeUq | addFk | removeFk
+  | other   -- an op kind outside the model's vocabulary (e.g. a comment op), as reported by the implementation
   deriving DecidableEq, Repr, Inhabited
 
 /-- what an op names -/
@@ -224,5 +225,16 @@ def mustDiffer (syn : List (List String)) (i m : G.Params) : Bool :=
   i.token0 != m.token0 &&
   syn.all (fun b => !(G.inGroup b i.token0 && G.inGroup b m.token0)) &&
   syn.all (fun b => !(G.inGroup b (G.allTerms i) && G.inGroup b (G.allTerms m)))
+
+
+/-- two tokenised types that must *not* be reported as different: a synonym group of the dialect
+declares their names to be the same type - by full term string ("double precision" / "float") or
+by first word - or the first words are equal, and the further words / arguments agree wherever
+both sides state the same number of them. -/
+def mustMatch (syn : List (List String)) (ext : List (Option String × Option String)) (i m : G.Params) : Bool :=
+  (i.token0 == m.token0 ||
+   syn.any (fun b => G.inGroup b (G.allTerms i) && G.inGroup b (G.allTerms m)) ||
+   syn.any (fun b => G.inGroup b i.token0 && G.inGroup b m.token0)) &&
+  G.argsMatch ext i m
 
 end Spec.Diff
